@@ -149,6 +149,16 @@ def verify(code=None, filename=DEFAULT_STUDENT_FILENAME, report=MAIN_REPORT,
                      sys.exc_info(), report=report, muted=muted, enhance=enhance)
         report[TOOL_NAME]['success'] = False
         report[TOOL_NAME]['ast'] = ast.parse("")
+    except (ValueError, RecursionError, MemoryError) as refusal:
+        # Python can refuse a text without calling it a SyntaxError: a lone surrogate cannot be
+        # encoded (UnicodeEncodeError), an expression can be nested too deeply (RecursionError)
+        try:
+            raise SyntaxError(str(refusal)) from refusal
+        except SyntaxError as e:
+            syntax_error(None, filename, code, None, e,
+                         sys.exc_info(), report=report, muted=muted, enhance=enhance)
+        report[TOOL_NAME]['success'] = False
+        report[TOOL_NAME]['ast'] = ast.parse("")
     else:
         report[TOOL_NAME]['success'] = True
     return report[TOOL_NAME]['success']
